@@ -67,6 +67,30 @@ MW_GENERATORS = [
          cmd='rm -f lean/GodiModel/Gen/Middleware.lean && cd extract && go run . -o ../lean/GodiModel/Gen/Middleware.lean'),
     dict(name='stamp-harness-common', cmd='sh harness/mw/stamp.sh'),
 ]
+LOCKFACTS_GEN = dict(
+    name='lockfacts',
+    cmd='cd extract/lockfacts && go run . -out ../../lean/GodiModel/Gen/LockFacts.lean',   # honours VERIF_REPO
+)
+
+CONC_STREAM = dict(
+    name='conc', pkg='.', files=['harness/conc/vk_conc_test.go'], test='TestVerifConc$',
+    corpus='corpus/conc', new_marker='k new', timeout='20m',
+    env=dict(quick=dict(VERIF_CONC_ENUM=150, VERIF_CONC_RANDOM=500),
+             thorough=dict(VERIF_CONC_ENUM=400, VERIF_CONC_RANDOM=1500)),
+    rule='schedule-forced scenarios over one scope of a provider with scoped A(B), scoped B, a transient, a singleton and a '
+         'scoped initializer: corpus of named interleavings, every schedule (up to a budget) of ten 2-3 thread programs, random '
+         '2-4 thread programs (resolutions of both scoped keys incl. failing constructors, transient, singleton, child-scope '
+         'creation incl. failing initializer, Close, provider.Close, context cancellation) under random schedules; goroutines '
+         'park wherever the container calls user code; a scenario is non-trivial when at least two calls overlap',
+)
+
+CONC_STRESS_STREAM = dict(
+    name='conc-stress', pkg='.', files=['harness/conc/vk_conc_test.go'], test='TestVerifConcStress$',
+    model=False, seeded=True, replayable=False, timeout='20m',
+    race=dict(quick=True, thorough=True), fail_on_rc=True,
+    env=dict(quick=dict(VERIF_STRESS_ROUNDS=120), thorough=dict(VERIF_STRESS_ROUNDS=600)),
+    rule='free-running stress under the race detector: 12 goroutines x 120 random operations per round',
+)
 
 PROPS = {
     'C05': dict(streams=[GRAPH_STREAM]),
@@ -89,6 +113,15 @@ PROPS = {
         "error (C02/C13), scope.Context() carries the scope (C18), Close is idempotent (C12), resolving from a closed scope fails (C13)",
         "concurrency: the per-request function shares nothing but the provider (the extractor rejects state outside it); "
         "isolation of scoped instances between scopes is C02",
+    ]),
+    'C09': dict(streams=[CONC_STREAM, CONC_STRESS_STREAM], generators=[LOCKFACTS_GEN], assumptions=[
+        'Go memory model, modelled not verified: every M6 action (one mutex-protected region, one sync/atomic or sync.Map '
+        'operation, one channel close/receive, one call into user code) is atomic and the execution is sequentially consistent '
+        'at that granularity; data races on fields accessed outside these primitives are only searched for by the -race stream',
+        'M6 models ONE provider-created scope with two scoped keys (a depends on b), a transient, a singleton, dynamically '
+        'created child scopes without resolvers of their own, the provider scope table and provider.Close; group resolution, '
+        'multi-return / result-object fan-out and provider.CreateScope siblings are not in M6',
+        'fair scheduling / termination of every call is not a theorem (deadlock freedom is)',
     ]),
 }
 
